@@ -18,7 +18,8 @@
     [errs0]/[actual0]: number of errors of ParseAndValidate and the reported cost with the cost
     rule given no limit; [errs]/[actual]: the same with the limit [max]. *)
 From Coq Require Import List ZArith Bool String.
-From ApiFu Require Import Base.Sexp Cost.CostModel Cost.CostSpec.
+From ApiFu Require Val.Values Val.CoerceModel Val.CoerceSpec Val.CoerceCheck.
+From ApiFu Require Import Base.Sexp Cost.CostModel Cost.CostSpec Cost.CostArgs.
 Import ListNotations.
 Open Scope string_scope.
 Open Scope Z_scope.
@@ -50,7 +51,7 @@ Definition dec_src (s : sexp) : option argsrc :=
 (** [(a DEFAULT SRC)] resolved against the coerced variables *)
 Definition dec_arg (coerced : list (bytes * vval)) (s : sexp) : option argval :=
   match tagged "a" s with
-  | Some [d; x] =>
+  | Some (d :: x :: _) =>
       match dec_default d, dec_src x with
       | Some dv, Some src => Some (resolve_arg coerced dv src)
       | _, _ => None
@@ -58,10 +59,23 @@ Definition dec_arg (coerced : list (bytes * vval)) (s : sexp) : option argval :=
   | _ => None
   end.
 
+(** a generic argument [("name" LIT)] (C05's literal encoding) mentions a variable *)
+Fixpoint CoerceCheck_has_var (s : sexp) {struct s} : bool :=
+  match s with
+  | SL (SSym t :: rest) =>
+      String.eqb t "var" ||
+      (fix go (l : list sexp) : bool := match l with [] => false | x :: r => CoerceCheck_has_var x || go r end) rest
+  | SL l => (fix go (l : list sexp) : bool := match l with [] => false | x :: r => CoerceCheck_has_var x || go r end) l
+  | _ => false
+  end.
+
 Definition arg_uses_var (s : sexp) : bool :=
   match tagged "a" s with
-  | Some [_; x] => match tagged "var" x with Some _ => true | None => false end
-  | _ => false
+  | Some (_ :: x :: _) => match tagged "var" x with Some _ => true | None => false end
+  | _ => match s with
+         | SL [SStr _; l] => CoerceCheck_has_var l
+         | _ => false
+         end
   end.
 
 Definition int_or (a : argval) (d : Z) : Z := match a with AInt z => z | _ => d end.
@@ -158,50 +172,285 @@ Definition dec_cfd (T : list Z) (coerced : list (bytes * vval)) (s : sexp) : opt
 
 Definition cfd_uses_var (s : sexp) : bool :=
   match untag s with
-  | Some (_, args) => existsb arg_uses_var args
+  | Some (t, args) =>
+      if String.eqb t "gen" then match args with [_; SL gas; _; _; _] => existsb arg_uses_var gas | _ => false end
+      else existsb arg_uses_var args
   | None => false
   end.
 Definition cfd_sets_ctx (s : sexp) : bool :=
   match untag s with
-  | Some (t, _) => String.eqb t "setc" || String.eqb t "conn"
+  | Some (t, args) =>
+      String.eqb t "setc" || String.eqb t "conn" ||
+      (String.eqb t "gen" && match args with [_; _; _; _; sc] => negb (is_sym "none" sc) | _ => false end)
   | None => false
   end.
 
-Fixpoint dec_node (T : list Z) (coerced : list (bytes * vval)) (s : sexp) {struct s} : option (node ctxT) :=
-  match s with
-  | SL (SSym t :: rest) =>
-      let kids (l : list sexp) :=
-        (fix go (l : list sexp) : option (list (node ctxT)) :=
-           match l with
-           | [] => Some []
-           | x :: r => match dec_node T coerced x, go r with
-                       | Some a, Some b => Some (a :: b)
-                       | _, _ => None
-                       end
-           end) l in
-      if String.eqb t "o" then
-        match kids rest with Some ks => Some (Node KOther ks) | None => None end
-      else if String.eqb t "t" then
-        match kids rest with Some ks => Some (Node (KFieldNoDef true) ks) | None => None end
-      else if String.eqb t "u" then
-        match kids rest with Some ks => Some (Node (KFieldNoDef false) ks) | None => None end
-      else if String.eqb t "s" then
-        match rest with
-        | SStr name :: rest' => match kids rest' with Some ks => Some (Node (KSpread name) ks) | None => None end
-        | _ => None
-        end
-      else if String.eqb t "f" then
-        match rest with
-        | cfd :: rest' =>
-            match dec_cfd T coerced cfd, kids rest' with
-            | Some k, Some ks => Some (Node k ks)
-            | _, _ => None
-            end
-        | _ => None
-        end
-      else None
+(** the tree [ast.Inspect] walks, generic in what a node is (model: [anode], Spec: [node]) *)
+Section DecTree.
+  Variables K N : Type.
+  Variable mk : K -> list N -> N.
+  Variable k_field : sexp -> option K.
+  Variables k_other k_typename k_unknown : K.
+  Variable k_spread : bytes -> K.
+
+  Fixpoint dec_tree (s : sexp) {struct s} : option N :=
+    match s with
+    | SL (SSym t :: rest) =>
+        let kids (l : list sexp) :=
+          (fix go (l : list sexp) : option (list N) :=
+             match l with
+             | [] => Some []
+             | x :: r => match dec_tree x, go r with
+                         | Some a, Some b => Some (a :: b)
+                         | _, _ => None
+                         end
+             end) l in
+        if String.eqb t "o" then
+          match kids rest with Some ks => Some (mk k_other ks) | None => None end
+        else if String.eqb t "t" then
+          match kids rest with Some ks => Some (mk k_typename ks) | None => None end
+        else if String.eqb t "u" then
+          match kids rest with Some ks => Some (mk k_unknown ks) | None => None end
+        else if String.eqb t "s" then
+          match rest with
+          | SStr name :: rest' => match kids rest' with Some ks => Some (mk (k_spread name) ks) | None => None end
+          | _ => None
+          end
+        else if String.eqb t "f" then
+          match rest with
+          | cfd :: rest' =>
+              match k_field cfd, kids rest' with
+              | Some k, Some ks => Some (mk k ks)
+              | _, _ => None
+              end
+          | _ => None
+          end
+        else None
+    | _ => None
+    end.
+End DecTree.
+
+(** ** round 3: the arguments.  Model side: every field selection becomes an [afield] (argument
+    definitions, argument literals, cost function of (context, argument map)) and goes through
+    [CostArgs.compile_field], i.e. through C05's transcription of CoerceArgumentValues.  Spec side:
+    the Int-only forms keep [resolve_arg] (CostSpec.v), the generic form [gen] uses C05's reference
+    coercion [ref_request]. *)
+Definition n_Int : bytes := [73; 110; 116]%N.
+Definition default_env : Values.env := [(n_Int, Values.TScalar Values.KInt)].
+Definition dt0 : bytes -> option bytes := fun _ => None.
+Definition arg_name (i : nat) : bytes := [N.of_nat (48 + i)].
+
+Definition gdefault (v : vval) : Values.gval :=
+  match v with VNull => Values.GNullSentinel | VInt z => Values.GInt z end.
+Definition lit_of_src (x : argsrc) : option Values.lit :=
+  match x with
+  | SAbsent => None
+  | SNull => Some Values.LNull
+  | SLit z => Some (Values.LInt z)
+  | SVar v => Some (Values.LVar v)
+  end.
+
+(** [(a DEFAULT SRC)] / [(a DEFAULT SRC nn)]: default, source, non-null *)
+Definition dec_aform (s : sexp) : option (option vval * argsrc * bool) :=
+  match tagged "a" s with
+  | Some (d :: x :: rest) =>
+      match dec_default d, dec_src x with
+      | Some dv, Some src => Some (dv, src, match rest with [] => false | _ => true end)
+      | _, _ => None
+      end
   | _ => None
   end.
+Definition is_aform (s : sexp) : bool := match tagged "a" s with Some _ => true | None => false end.
+
+Fixpoint aforms_args (i : nat) (l : list (option vval * argsrc * bool))
+  : list (Values.name * Values.in_def) * list (Values.name * Values.lit) :=
+  match l with
+  | [] => ([], [])
+  | (dv, src, nn) :: r =>
+      let (ds, ls) := aforms_args (S i) r in
+      let ty := if nn then Values.StNonNull (Values.StNamed n_Int) else Values.StNamed n_Int in
+      ((arg_name i, {| Values.in_type := ty; Values.in_default := option_map gdefault dv |}) :: ds,
+       match lit_of_src src with Some lt => (arg_name i, lt) :: ls | None => ls end)
+  end.
+
+(** [ctx.Arguments[name]] as the harness' cost functions look at it *)
+Definition av (m : amap) (i : nat) : argval :=
+  match Values.aget (arg_name i) m with
+  | None => AAbsent
+  | Some (Values.GInt z) => AInt z
+  | Some _ => ANull
+  end.
+
+Definition acost := ctxT -> amap -> option (fcost ctxT).
+Definition akonst (r m : Z) : acost := fun _ _ => Some {| fc_r := r; fc_m := m; fc_ctx := None |}.
+
+(** the cost functions of the Int-only forms, over the argument map (arguments named 0, 1) *)
+Definition old_cost (T : list Z) (t : string) (others : list sexp) : option (option acost) :=
+  if String.eqb t "const" then
+    match others with [SZ r; SZ m] => Some (Some (akonst r m)) | _ => None end
+  else if String.eqb t "direct" then
+    Some (Some (fun _ a => Some {| fc_r := int_or (av a 0) 1; fc_m := int_or (av a 1) 0; fc_ctx := None |}))
+  else if String.eqb t "tbl" then
+    Some (Some (fun _ a => Some {| fc_r := nth_tbl T (int_or (av a 0) 0);
+                                   fc_m := match av a 1 with AInt j => nth_tbl T j | _ => 0 end;
+                                   fc_ctx := None |}))
+  else if String.eqb t "setc" then
+    match others with
+    | [SZ r; SZ m] =>
+        Some (Some (fun ctx a => Some {| fc_r := r; fc_m := m;
+                                         fc_ctx := match av a 0 with
+                                                   | AInt c => Some {| k_user := Some c; k_max_edge := k_max_edge ctx |}
+                                                   | _ => None
+                                                   end |}))
+    | _ => None
+    end
+  else if String.eqb t "rc" then
+    Some (Some (fun ctx _ => Some {| fc_r := match k_user ctx with Some c => c | None => 0 end; fc_m := 0; fc_ctx := None |}))
+  else if String.eqb t "mc" then
+    match others with
+    | [SZ r] => Some (Some (fun ctx _ => Some {| fc_r := r; fc_m := match k_user ctx with Some c => c | None => 0 end; fc_ctx := None |}))
+    | _ => None
+    end
+  else if String.eqb t "req" then
+    Some (Some (fun _ a => Some {| fc_r := int_or (av a 0) 0; fc_m := 0; fc_ctx := None |}))
+  else if String.eqb t "conn" then
+    Some (Some (fun ctx a => Some (default_connection_cost (av a 0) (av a 1) ctx)))
+  else if String.eqb t "edges" then Some (Some (fun ctx _ => edges_cost ctx))
+  else None.
+
+(** the generic form: [(gen (ARGDEF...) (("name" LIT)...) R M SETC)], R and M integer expressions
+    over the argument map, SETC = none | (some "name") *)
+Definition gint (g : option Values.gval) : option Z := match g with Some (Values.GInt z) => Some z | _ => None end.
+
+Definition eval_iexp (T : list Z) (ctx : ctxT) (a : amap) (e : sexp) : Z :=
+  match untag e with
+  | Some (t, args) =>
+      if String.eqb t "k" then match args with [SZ z] => z | _ => 0 end
+      else if String.eqb t "user" then match k_user ctx with Some c => c | None => 0 end
+      else if String.eqb t "int" then
+        match args with [SStr n; SZ d] => match gint (Values.aget n a) with Some z => z | None => d end | _ => 0 end
+      else if String.eqb t "tbl" then
+        match args with [SStr n; SZ d] => match gint (Values.aget n a) with Some z => nth_tbl T z | None => d end | _ => 0 end
+      else if String.eqb t "len" then
+        match args with
+        | [SStr n; SZ d] => match Values.aget n a with Some (Values.GList l) => Z.of_nat (List.length l) | _ => d end
+        | _ => 0
+        end
+      else if String.eqb t "idx" then
+        match args with
+        | [SStr n; SZ i; SZ d] =>
+            match Values.aget n a with
+            | Some (Values.GList l) => match gint (nth_error l (Z.to_nat i)) with Some z => z | None => d end
+            | _ => d
+            end
+        | _ => 0
+        end
+      else if String.eqb t "fld" then
+        match args with
+        | [SStr n; SStr k; SZ d] =>
+            match Values.aget n a with
+            | Some (Values.GMap kvs) => match gint (Values.aget k kvs) with Some z => z | None => d end
+            | _ => d
+            end
+        | _ => 0
+        end
+      else if String.eqb t "fldlen" then
+        match args with
+        | [SStr n; SStr k; SZ d] =>
+            match Values.aget n a with
+            | Some (Values.GMap kvs) => match Values.aget k kvs with Some (Values.GList l) => Z.of_nat (List.length l) | _ => d end
+            | _ => d
+            end
+        | _ => 0
+        end
+      else 0
+  | None => 0
+  end.
+
+Definition gen_cost (T : list Z) (r m : sexp) (setc : option bytes) : acost :=
+  fun ctx a =>
+    Some {| fc_r := eval_iexp T ctx a r; fc_m := eval_iexp T ctx a m;
+            fc_ctx := match setc with
+                      | Some n => match gint (Values.aget n a) with
+                                  | Some c => Some {| k_user := Some c; k_max_edge := k_max_edge ctx |}
+                                  | None => None
+                                  end
+                      | None => None
+                      end |}.
+
+Definition dec_garg (s : sexp) : option (Values.name * Values.lit) :=
+  match s with
+  | SL [SStr n; l] => match CoerceCheck.dec_lit l with Some x => Some (n, x) | None => None end
+  | _ => None
+  end.
+
+Definition is_gen (s : sexp) : bool := match tagged "gen" s with Some _ => true | None => false end.
+
+Definition afield_of_cfd (T : list Z) (s : sexp) : option (afield ctxT) :=
+  if is_sym "nocost" s then Some {| af_argdefs := []; af_args := []; af_cost := None |}
+  else
+    match untag s with
+    | Some (t, args) =>
+        if String.eqb t "gen" then
+          match args with
+          | [SL ads; SL gas; r; m; sc] =>
+              match map_opt CoerceCheck.dec_indef ads, map_opt dec_garg gas,
+                    as_option (fun x => match x with SStr n => Some n | _ => None end) sc with
+              | Some argdefs, Some gargs, Some setc =>
+                  Some {| af_argdefs := argdefs; af_args := gargs; af_cost := Some (gen_cost T r m setc) |}
+              | _, _, _ => None
+              end
+          | _ => None
+          end
+        else
+          match map_opt dec_aform (filter is_aform args) with
+          | Some afs =>
+              let (argdefs, lits) := aforms_args 0 afs in
+              match old_cost T t (filter (fun x => negb (is_aform x)) args) with
+              | Some c => Some {| af_argdefs := argdefs; af_args := lits; af_cost := c |}
+              | None => None
+              end
+          | None => None
+          end
+    | None => None
+    end.
+
+(** model side *)
+Definition dec_anode (T : list Z) : sexp -> option (anode ctxT) :=
+  dec_tree (akind ctxT) (anode ctxT) ANode
+           (fun cfd => match afield_of_cfd T cfd with Some f => Some (AField f) | None => None end)
+           AOther (ANoDef true) (ANoDef false) ASpread.
+
+(** Spec side: [resolve_arg] for the Int-only forms, C05's reference coercion for [gen] *)
+Definition spec_kind (T : list Z) (E : Values.env) (coerced : list (bytes * vval))
+           (defs : list Values.vardef) (raw : list (Values.name * Values.jval)) (cfd : sexp) : option (kind ctxT) :=
+  if is_gen cfd then
+    match afield_of_cfd T cfd with
+    | Some f =>
+        match CoerceSpec.ref_request E dt0 (af_argdefs f) defs (af_args f) raw with
+        | Some m => Some (KField (match af_cost f with Some g => Some (fun ctx => g ctx m) | None => None end) false)
+        | None => Some (KField None true)
+        end
+    | None => None
+    end
+  else dec_cfd T coerced cfd.
+
+Definition dec_node (T : list Z) (E : Values.env) (coerced : list (bytes * vval))
+           (defs : list Values.vardef) (raw : list (Values.name * Values.jval)) : sexp -> option (node ctxT) :=
+  dec_tree (kind ctxT) (node ctxT) Node (spec_kind T E coerced defs raw)
+           KOther (KFieldNoDef true) (KFieldNoDef false) KSpread.
+
+(** the Int variable definitions / values of the case in C05's vocabulary; values that came through
+    JSON (apifu routes) are float64 *)
+Definition conv_vardef (d : vardef) : Values.vardef :=
+  {| Values.vd_name := vd_name d;
+     Values.vd_type := if vd_nonnull d then Values.StNonNull (Values.StNamed n_Int) else Values.StNamed n_Int;
+     Values.vd_default := option_map (fun v => match v with VNull => Values.LNull | VInt z => Values.LInt z end) (vd_default d) |}.
+Definition conv_value (json : bool) (p : bytes * vval) : Values.name * Values.jval :=
+  (fst p, match snd p with
+          | VNull => Values.JNull
+          | VInt z => if json then Values.JNum (Values.f64_of_Z z) else Values.JInt z
+          end).
 
 (** syntactic facts about a case, for the evidence classes *)
 Fixpoint sexp_exists (p : sexp -> bool) (s : sexp) {struct s} : bool :=
@@ -232,13 +481,24 @@ Definition dec_opname (s : sexp) : option (option bytes) :=
   else match tagged "some" s with Some [SStr n] => Some (Some n) | _ => None end.
 
 (** first pass over an operation: name, variable definitions, undecoded body *)
-Definition dec_op_raw (s : sexp) : option (option bytes * list vardef * sexp) :=
+Definition dec_op_raw (s : sexp) : option (option bytes * list vardef * sexp * list Values.vardef) :=
   match tagged "op" s with
-  | Some [n; SL vds; body] =>
-      match dec_opname n, map_opt dec_vardef vds with
-      | Some name, Some defs => Some (name, defs, body)
-      | _, _ => None
+  | Some (n :: SL vds :: body :: rest) =>
+      match dec_opname n, map_opt dec_vardef vds,
+            (match rest with
+             | [] => Some []
+             | [SL xs] => map_opt CoerceCheck.dec_vardef xs
+             | _ => None
+             end) with
+      | Some name, Some defs, Some xdefs => Some (name, defs, body, xdefs)
+      | _, _, _ => None
       end
+  | _ => None
+  end.
+
+Definition dec_xvar (s : sexp) : option (Values.name * Values.jval) :=
+  match s with
+  | SL [SStr n; j] => match CoerceCheck.dec_jval j with Some x => Some (n, x) | None => None end
   | _ => None
   end.
 
@@ -410,6 +670,14 @@ Definition classes (route : string) (nops : nat) (has_op : bool) (body : list se
       (if (e0 =? 0) && has_multiplied_field ts && spread then ["multiplied-through-fragment"] else [])
   end.
 
+Definition raw_name (x : option bytes * list vardef * sexp * list Values.vardef) : option bytes := fst (fst (fst x)).
+Definition raw_defs (x : option bytes * list vardef * sexp * list Values.vardef) : list vardef := snd (fst (fst x)).
+Definition raw_body (x : option bytes * list vardef * sexp * list Values.vardef) : sexp := snd (fst x).
+Definition raw_xdefs (x : option bytes * list vardef * sexp * list Values.vardef) : list Values.vardef := snd x.
+(** all variable definitions of an operation, in C05's vocabulary *)
+Definition raw_alldefs (x : option bytes * list vardef * sexp * list Values.vardef) : list Values.vardef :=
+  (map conv_vardef (raw_defs x) ++ raw_xdefs x)%list.
+
 Definition check (c : sexp) : sexp :=
   match tagged "case" c with
   | Some l =>
@@ -419,34 +687,52 @@ Definition check (c : sexp) : sexp :=
       | Some (SL opsx), Some (SL frx), Some (SZ max), Some (SL cnx), Some obx =>
       match map_opt as_Z tb, map_opt dec_var vs, map_opt dec_op_raw opsx, dec_observed obx with
       | Some T, Some given, Some raws, Some o =>
+      match (match field1 "env" l with Some (SL es) => map_opt CoerceCheck.dec_env_entry es | Some _ => None | None => Some default_env end),
+            (match field1 "xvars" l with Some (SL xs) => map_opt dec_xvar xs | Some _ => None | None => Some [] end) with
+      | Some E, Some xvars =>
           let std := match field1 "std" l with Some (SZ n) => n | _ => 0 end in
           let dc : fcost ctxT := {| fc_r := dr; fc_m := dm; fc_ctx := None |} in
-          (* the chosen operation decides which variable definitions apply *)
-          let chosen := match filter (fun x => op_matches opname (fst (fst x))) raws with [x] => Some x | _ => None end in
-          let coerced_opt := match chosen with Some (_, defs, _) => coerce_vars defs given | None => Some [] end in
-          let vars_err := match coerced_opt with None => true | Some _ => false end in
+          let json := negb (String.eqb route "direct") in
+          let raw := (map (conv_value json) given ++ xvars)%list in
+          (* Spec side: the chosen operation decides which variable definitions apply *)
+          let chosen := match filter (fun x => op_matches opname (raw_name x)) raws with [x] => Some x | _ => None end in
+          let coerced_opt := match chosen with Some x => coerce_vars (raw_defs x) given | None => Some [] end in
+          let sdefs := match chosen with Some x => raw_alldefs x | None => [] end in
+          let ref_vars_fail := match chosen with
+                               | Some x => match CoerceSpec.ref_variable_values E dt0 sdefs raw with None => true | Some _ => false end
+                               | None => false
+                               end in
+          let vars_err := match coerced_opt with None => true | Some _ => ref_vars_fail end in
           let coerced := match coerced_opt with Some cv => cv | None => [] end in
-          match map_opt (fun x : option bytes * list vardef * sexp =>
-                           match dec_node T coerced (snd x) with
-                           | Some n => Some (fst (fst x), n)
-                           | None => None
-                           end) raws,
+          match map_opt (fun x => match dec_node T E coerced sdefs raw (raw_body x) with
+                                  | Some n => Some (raw_name x, n)
+                                  | None => None
+                                  end) raws,
                 map_opt (fun s => match s with
-                                  | SL [SStr n; b] => match dec_node T coerced b with Some d => Some (n, d) | None => None end
+                                  | SL [SStr n; b] => match dec_node T E coerced sdefs raw b with Some d => Some (n, d) | None => None end
                                   | _ => None
                                   end) frx,
-                map_opt (dec_conn coerced) cnx with
-          | Some ops, Some frs, Some conns =>
+                map_opt (dec_conn coerced) cnx,
+                (* model side *)
+                map_opt (fun x => match dec_anode T (raw_body x) with
+                                  | Some n => Some {| ao_name := raw_name x; ao_vardefs := raw_alldefs x; ao_body := n |}
+                                  | None => None
+                                  end) raws,
+                map_opt (fun s => match s with
+                                  | SL [SStr n; b] => match dec_anode T b with Some d => Some (n, d) | None => None end
+                                  | _ => None
+                                  end) frx with
+          | Some ops, Some frs, Some conns, Some aops, Some afrs =>
               if negb (forallb in_intb (dr :: dm :: max :: T)) then v_bad "not-an-int"
               else
-              let fuel := S (List.length frs) in
-              let m := validate_cost ctxT true fuel dc ctx0 ops frs opname vars_err max in
-              let m0 := validate_cost ctxT true fuel dc ctx0 ops frs opname vars_err (-1) in
+              let fuel := S (List.length afrs) in
+              let m := validate_cost_request ctxT E dt0 true fuel dc ctx0 aops afrs opname raw max in
+              let m0 := validate_cost_request ctxT E dt0 true fuel dc ctx0 aops afrs opname raw (-1) in
               let spec := spec_tree dc ops frs opname vars_err in
               (* classification of defect 18 (repaired): the observation is exactly what the code before
                  the repair computes, on a tree with a free field beneath an overflowed multiplier *)
-              let before := validate_cost ctxT false fuel dc ctx0 ops frs opname vars_err max in
-              let before0 := validate_cost ctxT false fuel dc ctx0 ops frs opname vars_err (-1) in
+              let before := validate_cost_request ctxT E dt0 false fuel dc ctx0 aops afrs opname raw max in
+              let before0 := validate_cost_request ctxT E dt0 false fuel dc ctx0 aops afrs opname raw (-1) in
               let is_defect18 :=
                 match spec, compare before before0 o with
                 | Some ts, None => zero_under_overflow ts
@@ -471,13 +757,18 @@ Definition check (c : sexp) : sexp :=
                   | None =>
                       if negb (forallb conn_agrees conns) then v_mismatch "connection-edge-count" []
                       else
+                        let body := (map raw_body raws ++ frx)%list in
                         v_ok (classes route (List.length ops) (match chosen with Some _ => true | None => false end)
-                                      (map (fun x : option bytes * list vardef * sexp => snd x) raws ++ frx) spec max o std
-                              ++ (match conns with [] => [] | _ => ["connections"] end))
+                                      body spec max o std
+                              ++ (match conns with [] => [] | _ => ["connections"] end)
+                              ++ (if existsb (sexp_exists (is_field_with is_gen)) body then ["list-or-object-argument"] else [])
+                              ++ (match xvars with [] => [] | _ => ["list-or-object-variable-value-given"] end))
                   end
               end
-          | _, _, _ => v_bad "decode-nodes"
+          | _, _, _, _, _ => v_bad "decode-nodes"
           end
+      | _, _ => v_bad "decode-env"
+      end
       | _, _, _, _ => v_bad "decode"
       end
       | _, _, _, _, _ => v_bad "fields2"
